@@ -85,28 +85,6 @@ Fixpoint tlookup (id : nat) (e : tenv) : option (bool * ty) :=
 Definition is_namedish (t : ty) : bool :=
   match t with TN _ _ _ | TRef _ => true | _ => false end.
 
-(* one resolution step: (named info, environment for the components, underlying node) *)
-Record resolved := { r_named : option (nat * bool); r_env : tenv; r_node : ty }.
-Definition resolve (e : tenv) (t : ty) : option resolved :=
-  match t with
-  | TN id ext u =>
-      if is_namedish u then None
-      else Some {| r_named := Some (id, ext); r_env := (id, (ext, u)) :: e; r_node := u |}
-  | TRef id =>
-      match tlookup id e with
-      | Some (ext, u) =>
-          if is_namedish u then None
-          else Some {| r_named := Some (id, ext); r_env := e; r_node := u |}
-      | None => None
-      end
-  | _ => Some {| r_named := None; r_env := e; r_node := t |}
-  end.
-
-Definition is_named (r : resolved) : bool :=
-  match r_named r with Some _ => true | None => false end.
-Definition is_ext (r : resolved) : bool :=
-  match r_named r with Some (_, x) => x | None => false end.
-
 (* plugin/equal canEqual = derive.IsComparable: basic, and arrays/structs of those.
    A back reference can only sit below a pointer, slice or map (Go forbids by-value
    recursion), where the answer is already false, so [TRef] is never reached by value in a
@@ -121,8 +99,32 @@ Fixpoint can_equal (t : ty) : bool :=
   | _ => false
   end.
 
+(* one resolution step: (named info, environment for the components, underlying node) *)
+Record resolved := { r_named : option (nat * bool); r_env : tenv; r_node : ty }.
+Definition resolve (e : tenv) (t : ty) : option resolved :=
+  match t with
+  | TN id ext u =>
+      if is_namedish u then None
+      else Some {| r_named := Some (id, ext); r_env := (id, (ext, u)) :: e; r_node := u |}
+  | TRef id =>
+      match tlookup id e with
+      | Some (ext, u) =>
+          (* a type can refer to itself only through a pointer, slice or map, so it is not
+             comparable; anything else is an ill-formed term *)
+          if (is_namedish u || can_equal u)%bool then None
+          else Some {| r_named := Some (id, ext); r_env := e; r_node := u |}
+      | None => None
+      end
+  | _ => Some {| r_named := None; r_env := e; r_node := t |}
+  end.
+
+Definition is_named (r : resolved) : bool :=
+  match r_named r with Some _ => true | None => false end.
+Definition is_ext (r : resolved) : bool :=
+  match r_named r with Some (_, x) => x | None => false end.
+
 Definition is_byte (t : ty) : bool :=
-  match t with TB (KInt 8 false) => true | _ => false end.
+  match t with TB (KInt w s) => (N.eqb w 8 && negb s)%bool | _ => false end.
 Definition is_struct (t : ty) : bool := match t with TSt _ => true | _ => false end.
 
 (* ---------- parsing from the interchange format ---------- *)
